@@ -66,3 +66,113 @@ pub fn record_outcome(value: usize) {
 pub fn take_outcomes() -> Vec<usize> {
     std::mem::take(&mut *OUTCOMES.lock().unwrap())
 }
+
+// ---------------------------------------------------------------------------------------------
+// traced reader-writer lock and job markers for `threads.rs`
+
+/// One event of the shared-pool protocol: (call id, wanted pool size, kind).
+/// kind: 0 ReadAcq, 1 ReadRel, 2 WriteAcq, 3 WriteRel, 4 JobBegin, 5 JobEnd.
+pub type PoolEvent = (usize, usize, u8);
+
+static TRACE: Mutex<Vec<PoolEvent>> = Mutex::new(Vec::new());
+static NEXT_CALL: std::sync::atomic::AtomicUsize = std::sync::atomic::AtomicUsize::new(1);
+
+thread_local! {
+    static CALLS: RefCell<Vec<(usize, usize)>> = RefCell::new(Vec::new());
+}
+
+fn trace(kind: u8) {
+    let (id, want) = CALLS.with(|c| c.borrow().last().copied().unwrap_or((0, 0)));
+    TRACE.lock().unwrap().push((id, want, kind));
+}
+
+/// Take (and clear) the protocol trace.
+pub fn take_trace() -> Vec<PoolEvent> {
+    std::mem::take(&mut *TRACE.lock().unwrap())
+}
+
+/// Marks the extent of one `global_install` call on the calling thread.
+pub struct CallGuard(usize, usize);
+
+impl CallGuard {
+    pub fn enter(want: usize) -> Self {
+        let id = NEXT_CALL.fetch_add(1, std::sync::atomic::Ordering::SeqCst);
+        CALLS.with(|c| c.borrow_mut().push((id, want)));
+        CallGuard(id, want)
+    }
+
+    pub fn id(&self) -> (usize, usize) {
+        (self.0, self.1)
+    }
+}
+
+impl Drop for CallGuard {
+    fn drop(&mut self) {
+        CALLS.with(|c| {
+            c.borrow_mut().pop();
+        });
+    }
+}
+
+/// Job markers, emitted on the worker thread that runs the installed closure.
+pub fn job_event(id: (usize, usize), begin: bool) {
+    TRACE.lock().unwrap().push((id.0, id.1, if begin { 4 } else { 5 }));
+}
+
+/// `std::sync::RwLock` with acquisitions and releases recorded in the protocol trace.
+pub struct RwLock<T>(std::sync::RwLock<T>);
+
+pub struct ReadGuard<'a, T>(Option<std::sync::RwLockReadGuard<'a, T>>);
+pub struct WriteGuard<'a, T>(Option<std::sync::RwLockWriteGuard<'a, T>>);
+
+impl<T> RwLock<T> {
+    pub fn new(value: T) -> Self {
+        Self(std::sync::RwLock::new(value))
+    }
+
+    pub fn read(&self) -> Result<ReadGuard<'_, T>, ()> {
+        let guard = self.0.read().map_err(|_| ())?;
+        trace(0);
+        Ok(ReadGuard(Some(guard)))
+    }
+
+    pub fn write(&self) -> Result<WriteGuard<'_, T>, ()> {
+        let guard = self.0.write().map_err(|_| ())?;
+        trace(2);
+        Ok(WriteGuard(Some(guard)))
+    }
+}
+
+impl<'a, T> Drop for ReadGuard<'a, T> {
+    fn drop(&mut self) {
+        trace(1);
+        self.0.take();
+    }
+}
+
+impl<'a, T> Drop for WriteGuard<'a, T> {
+    fn drop(&mut self) {
+        trace(3);
+        self.0.take();
+    }
+}
+
+impl<'a, T> std::ops::Deref for ReadGuard<'a, T> {
+    type Target = T;
+    fn deref(&self) -> &T {
+        self.0.as_ref().unwrap()
+    }
+}
+
+impl<'a, T> std::ops::Deref for WriteGuard<'a, T> {
+    type Target = T;
+    fn deref(&self) -> &T {
+        self.0.as_ref().unwrap()
+    }
+}
+
+impl<'a, T> std::ops::DerefMut for WriteGuard<'a, T> {
+    fn deref_mut(&mut self) -> &mut T {
+        self.0.as_mut().unwrap()
+    }
+}
